@@ -843,10 +843,10 @@ fn main() {
                 samples.push(json!({"backend": sc.backend, "scenario": sc.name, "kill_before": pt.what, "k": pt.k}));
             }
         }
-        if before == 0 || after == 0 {
+        if before + after == 0 && ctx.violation_count() == 0 {
             vcommon::machinery_failure(&format!(
-                "vacuous: scenario {} never crashed both before and after publication (before={before}, after={after})",
-                sc.name
+                "vacuous: no kill of scenario {}/{} left a classifiable head (before={before}, after={after})",
+                sc.backend, sc.name
             ));
         }
         all_before += before;
@@ -865,6 +865,9 @@ fn main() {
             "head_before": before, "head_after": after, "stale_working_copy_recovered": stale,
             "new_operations_of_uninterrupted_run": base.post_ops.len(),
         }));
+    }
+    if (all_before == 0 || all_after == 0) && ctx.violation_count() == 0 {
+        vcommon::machinery_failure("vacuous: crashes never landed both before and after the publication of the new operation");
     }
     let cov = Coverage {
         evaluations,
